@@ -24,6 +24,7 @@ type C18Case struct {
 	Waves []int `json:"waves"`
 	Reps  int   `json:"reps"`
 	// Orders, when set, replaces the exhaustive enumeration (replay of one schedule pair).
+	Limit int   `json:"limit,omitempty"` // 0 = no limit
 	Step  int64 `json:"step"`
 	Start int64 `json:"start"`
 	End   int64 `json:"end"`
@@ -98,7 +99,11 @@ func c18Check(c C18Case) (r evid.Result) {
 				}
 				d.Order = append(d.Order, o)
 			}
-			data, err := dl.Eval(d, c.Query, dl.Params{Start: c.Start, End: c.End, Step: c.Step, Limit: -1})
+			limit := -1
+			if c.Limit > 0 {
+				limit = c.Limit
+			}
+			data, err := dl.Eval(d, c.Query, dl.Params{Start: c.Start, End: c.End, Step: c.Step, Limit: limit})
 			rep2 := d.Done()
 			r.Evals++
 			what := fmt.Sprintf("completion order %v, repetition %d", order, rep)
@@ -125,6 +130,7 @@ func c18Check(c C18Case) (r evid.Result) {
 	r.Class(true, fmt.Sprintf("containers=%d", n))
 	r.Class(strings.HasPrefix(c.Query, "{"), "log-query")
 	r.Class(len(c.Waves) == 2, "binary-operation")
+	r.Class(c.Limit > 0, "limited")
 	r.Class(nSeries >= 2, "series>=2")
 	r.NonTrivial = n >= 3 && nSeries >= 2 && nMulti >= 2
 	return r
@@ -171,6 +177,8 @@ func c18Gen(t *rapid.T) C18Case {
 		`{} |= "GET"`,
 		`{tier="web"} | drop msg`,
 		`{} | keep tier, env`,
+		`{} | keep tier`,
+		`{} | drop msg, container, container_id, container_name`,
 		`count_over_time({}[2s])`,
 		`count_over_time({} | keep tier, env [2s])`,
 		`sum by (tier, env) (count_over_time({}[5s]))`,
@@ -193,6 +201,10 @@ func c18Gen(t *rapid.T) C18Case {
 	c.Start, c.End, c.Step = base, base+6e9, 1e9
 	if !strings.HasPrefix(c.Query, "{") && rapid.IntRange(0, 3).Draw(t, "instant") == 0 {
 		c.Start, c.End, c.Step = base+3e9, base+3e9, 0
+	}
+	if strings.HasPrefix(c.Query, "{") && rapid.IntRange(0, 1).Draw(t, "limited") == 0 {
+		// A limit that may cut through records with equal timestamps of different containers.
+		c.Limit = rapid.IntRange(1, 4).Draw(t, "limit")
 	}
 	c.Reps = envInt("VERIF_C18_REPS", 5)
 	return c
